@@ -15,13 +15,16 @@ from core.ctx import canon
 from props import _mpi_fakempi as fm
 
 ID = "C23"
-LEAN_MODULES = ["NiftyVerif.Props.C23", "NiftyVerif.Core.Proto", "NiftyVerif.Model.Allreduce"]
+LEAN_MODULES = ["NiftyVerif.Props.C23", "NiftyVerif.Core.Proto", "NiftyVerif.Model.Allreduce",
+                "NiftyVerif.Model.AllreduceReplay"]
 DRIVER = "Driver/C23.lean"
 OBLIGATIONS = ["NiftyVerif.C23." + t for t in (
     "owner_invariant", "tree_value", "tree_leaves", "tree_eval_sum", "matched_pair_is_one_event",
     "projection_deadlock_free", "runs_bounded", "schedule_independent", "maximal_run_exists",
     "allreduce_all_schedules", "serial_eq_distributed", "serial_program", "compound_messages_ordered",
-    "whoOf_lt", "full_protocol_deadlock_free", "full_protocol_schedule_independent", "full_allreduce_all_schedules")]
+    "whoOf_lt", "full_protocol_deadlock_free", "full_protocol_schedule_independent", "full_allreduce_all_schedules",
+    "matched_kinds_agree", "calls_are_expanded_projection", "dtype_detection_order_independent",
+    "observed_run_is_model_run")]
 RULE = ("case = (ordered partition `counts` of n summands over p ranks incl. empty ranks, payload kind, summand values); "
         "thorough: ALL partitions with n<=8, p<=4 for every kind, quick: all with n<=5,p<=3 (float) + a sample; "
         "non-trivial = at least one cross-rank transfer; distinct by (counts, kind)")
@@ -58,7 +61,7 @@ def _summand(kind, vals, i):
         return [[i, float(v).hex()]]
     arr = np.array([v, -v, vals[(i + 1) % len(vals)]], dtype=np.float64)
     if kind == "ndarray":
-        return arr
+        return arr.reshape(3, 1)     # two-dimensional: the shape sent ahead of the buffer matters
     dom = ift.DomainTuple.make(ift.UnstructuredDomain(3))
     if kind == "field":
         return ift.makeField(dom, arr)
@@ -94,7 +97,7 @@ def _enc(kind, x):
     if kind == "ndarray0":
         return [float(x).hex(), list(np.shape(x))]
     if kind == "ndarray":
-        return [float(t).hex() for t in np.asarray(x).ravel()]
+        return [float(t).hex() for t in np.asarray(x).ravel()] + [list(np.shape(x))]
     if kind == "field":
         return [float(t).hex() for t in x.val.asnumpy().ravel()]
     d = x.to_dict()
@@ -111,6 +114,8 @@ def _enc_plain(kind, x):
         return [float(x).hex()]
     if kind == "ndarray0":
         return [float(x).hex(), []]
+    if kind == "ndarray":
+        return [float(t).hex() for t in np.asarray(x).ravel()] + [[3, 1]]
     return [float(t).hex() for t in np.asarray(x).ravel()]
 
 
@@ -171,7 +176,7 @@ def _run_real(cases, p, seed):
     while start < len(cases) and guard < 4 * len(cases) + 4:
         guard += 1
         chunk = cases[start:end]
-        res = fm.run(p, _job, chunk, seed=seed, timeout=300.0)
+        res = fm.run(p, _job, chunk, seed=seed, timeout=120.0 * fm.load_factor())
         if res.ok:
             segs = [res.segments(r) for r in range(p)]
             for ci in range(len(chunk)):
@@ -274,6 +279,32 @@ def _model_op(c):
     return op
 
 
+# number of communicator calls of one transfer / of the final bcast, per payload kind (model: sendSeq / bcastSeq)
+NSUB = {"int": 1, "float": 1, "npfloat": 1, "list": 1, "ndarray": 2, "ndarray0": 2, "field": 2, "multifield": 5}
+NPOST = {"int": 2, "float": 2, "npfloat": 2, "list": 2, "ndarray": 3, "ndarray0": 3, "field": 4, "multifield": 10}
+
+
+def _observe(case, seed):
+    """one real run on its own: the GLOBAL order in which the hub fired rendezvous and collectives"""
+    p = len(case["counts"])
+    res = fm.run(p, _job, [case], seed=seed, timeout=60.0 * fm.load_factor())
+    if not res.ok:
+        return None
+    obs = []
+    for o in res.order:
+        if o[0] == "p2p":
+            obs.append(["p2p", o[1], o[2]])
+        else:
+            obs.append(["coll"])
+    return obs
+
+
+def _replay_op(case, obs):
+    kind, n = case["kind"], sum(case["counts"])
+    npost = NPOST[kind] if not (kind == "ndarray0" and n >= 2) else 2
+    return dict(op="replay", counts=case["counts"], m=NSUB[kind], npost=npost, obs=obs)
+
+
 def _check_batch(ctx, cases, p, seed, model):
     real = _run_real(cases, p, seed)
     for c, o, m in zip(cases, real, model):
@@ -364,11 +395,28 @@ def run(ctx):
     # error stream: no summand at all; mixed types -----------------------------------------------------
     for p in (1, 2, 3):
         by_p.setdefault(p, []).append(dict(counts=[0] * p, kind="float", vals=[]))
+    # trace validation: the global firing order observed by the hub in some real runs, replayed in the model ----------
+    pool = [c for p_, cs in sorted(by_p.items()) for c in cs if 2 <= sum(c["counts"]) <= 8 and len(c["counts"]) >= 2]
+    observed = []
+    for c in rng.sample(pool, min(len(pool), ctx.n(5, 150))):
+        obs = _observe(c, rng.randrange(1 << 30))
+        if obs is not None:
+            observed.append((c, obs))
     # ONE model call for everything (starting the Lean driver is the expensive part on a loaded machine) -------
     ser_cases = [dict(counts=[n], kind=k, vals=_mkvals(rng, n, k)) for n in range(0, ctx.n(12, 40)) for k in ("float", "field")]
     flat = [(p, c) for p, cases in sorted(by_p.items()) for c in cases]
     outs = ctx.model(DRIVER, [_model_op(c) for _, c in flat]
-                     + [dict(op="serial", n=len(c["vals"])) for c in ser_cases])
+                     + [dict(op="serial", n=len(c["vals"])) for c in ser_cases]
+                     + [_replay_op(c, obs) for c, obs in observed])
+    routs = outs[len(flat) + len(ser_cases):]
+    outs = outs[:len(flat) + len(ser_cases)]
+    for (c, obs), m in zip(observed, routs):
+        ctx.stat("replayed-observed-order")
+        ctx.traces_validated += 1
+        want = dict(accepted=True, finished=True, slot0=_ref_tree(sum(c["counts"])))
+        ctx.compare(dict(c, replay=True, nobs=len(obs)), want, m,
+                    note="global order of rendezvous/collectives observed in a real run, replayed in the transition system",
+                    nontrivial=any(o[0] == "p2p" for o in obs))
     mod_by_p = {}
     for (p, c), m in zip(flat, outs):
         mod_by_p.setdefault(p, []).append(m)
